@@ -20,7 +20,7 @@ for i, c in CHECKS.items():
     if i not in ("C13", "C20"):
         c["text"] += WIDENED
 CHECKS["C13"]["text"] += (" The DER alphabet additionally contains every content length of every primitive (prefix and suffix truncations with ancestor lengths fixed up), malformed BER end-of-contents at every nesting level, "
-                          "and the replacement of every OBJECT IDENTIFIER by every entry of a 70-entry dictionary of algorithm/curve/digest/content-type identifiers; seeds cover every accepted curve and Ed25519.")
+                          "and the replacement of every OBJECT IDENTIFIER by every entry of a dictionary of the 113 identifiers the repository declares of algorithm/curve/digest/content-type identifiers; seeds cover every accepted curve and Ed25519.")
 CHECKS["C20"]["text"] = CHECKS["C20"]["text"].replace("For eleven scenarios", "For thirty scenarios (the original eleven, SM9 user keys and key issuing during first use, key generation on singletons, and since the seeded changes: independent single-owner objects of every primitive on two threads - S17-S22 - and first use of each package-level singleton by two threads - S23a-e; one worker process per case with a cold first execution)")
 
 props = [json.loads(l) for l in open(os.path.join(V, "properties.jsonl"))]
